@@ -1,6 +1,7 @@
 from __future__ import annotations
 
 import ast
+import enum
 import inspect
 import builtins
 
@@ -53,6 +54,7 @@ from cohdl._core._boolean import _Boolean, _BooleanLiteral
 from cohdl._core._boolean import true as cohdl_true
 from cohdl._core._array import Array
 from cohdl._core._bit_vector import BitVector
+from cohdl._core._bit import Bit
 
 from cohdl._core._collect_ast_and_scope import (
     InstantiatedFunction,
@@ -87,6 +89,22 @@ def _make_static_comparable(lhs, rhs):
         return lhs.bitvector, type(lhs_val)(rhs).bitvector
 
     return lhs, type(lhs_val)(rhs)
+
+
+def _select_is_exhaustive(arg, conds) -> bool:
+    # True if the constant choices list every (two-valued) value of the selector
+    val = _type_qualifier.TypeQualifier.decay(arg)
+
+    if isinstance(val, (Bit, BitVector)):
+        width = val.width if isinstance(val, BitVector) else 1
+        patterns = {str(cond) for cond in conds}
+        patterns = {p for p in patterns if set(p) <= {"0", "1"}}
+        return len(patterns) == 2**width
+
+    if isinstance(val, enum.Enum):
+        return {cond for cond in conds} == set(type(val))
+
+    return False
 
 
 #
@@ -310,6 +328,13 @@ class PrepareAst:
                 )
                 for cond, expr in result.branches.items()
             ]
+
+            # without a default value an unlisted selector value would leave
+            # the result undefined (it would keep the value of an earlier
+            # evaluation in sequential contexts)
+            assert result.default is not None or _select_is_exhaustive(
+                result.arg, [cond for cond, _ in branches]
+            ), "select_with without default value must list every value of its argument"
 
             return out.SelectWith(result.arg, branches, result.default)
 
